@@ -308,6 +308,17 @@ Proof.
   rewrite Hm in Hmain. tauto.
 Qed.
 
+(* ... and then nothing moves any more: once the call has returned or raised no thread it started takes another step (no request,
+   no seek, no job begun) *)
+Theorem exec_done_final : forall workers s o, (1 <= workers)%nat -> xreach_gen workers s ->
+  x_main s = XDone o -> xstuck gen_exec_stream_per_job gen_exec_collect gen_exec_job file fails s.
+Proof.
+  intros workers s o Hw Hr Hm. pose proof (exec_joined _ _ _ Hw Hr Hm) as Hex. intros [|w]; cbn [xstep].
+  - unfold xmstep. rewrite Hm. reflexivity.
+  - unfold xwstep. destruct (nth_error (x_ws s) w) as [st|] eqn:Hn; auto.
+    rewrite forallb_forall in Hex. specialize (Hex _ (nth_error_In _ _ Hn)). destruct st; try discriminate. reflexivity.
+Qed.
+
 Lemma xjob_enabled : forall s w i r pc, nth_error (x_ws s) w = Some (XJob i r pc) -> exists s', xws s w = Some s'.
 Proof.
   intros s w i r pc Hn. unfold xwstep. rewrite Hn. destruct (nth_error gen_exec_job pc) as [[|]|]; eauto.
